@@ -767,7 +767,18 @@ def run_c15(rnd, tier, v, stats):
         stats["distinct"].add(repr(inp))
         if it < 2:
             stats["samples"].append(inp)
-        for parts in itertools.islice(partitions(rnd, stream, "quick"), 0, 30):
+        if transport == "chunked":
+            # chunk the stream at random points, then fragment the chunked WIRE at byte level (framing lines get split too)
+            cps = sorted(rnd.sample(range(1, len(stream)), min(3, len(stream) - 1))) if len(stream) > 2 else []
+            pieces, last = [], 0
+            for c in cps:
+                pieces.append(stream[last:c])
+                last = c
+            pieces.append(stream[last:])
+            wire = b"".join(("%x" % len(p)).encode() + b"\r\n" + p + b"\r\n" for p in pieces if p) + b"0\r\n\r\n"
+        else:
+            wire = stream
+        for parts in itertools.islice(partitions(rnd, wire, "quick"), 0, 45):
             from hio.core.http import clienting
             msg = bytearray()
             rp = clienting.Respondent(msg=msg, method="GET")
@@ -776,11 +787,9 @@ def run_c15(rnd, tier, v, stats):
                 msg.extend(head)
                 rp.parse()
                 for p in parts:
-                    msg.extend(("%x" % len(p)).encode() + b"\r\n" + p + b"\r\n" if transport == "chunked" and p else (p if transport == "plain" else b""))
+                    msg.extend(p)
                     rp.parse()
-                if transport == "chunked":
-                    msg.extend(b"0\r\n\r\n")
-                else:
+                if transport != "chunked":
                     rp.close()
                 for _ in range(3):
                     if rp.parser:
@@ -861,4 +870,50 @@ def run_c12(rnd, tier, v, stats):
                 v("C12/closed-before-tymeout", inp, dict(closed_at=closed_at), dict(not_before=last_traffic + T))
 
 
-RUNNERS = {"C12": run_c12, "C13": run_c13, "C14": run_c14, "C15": run_c15, "C16": run_c16, "C17": run_c17, "C18": run_c18, "C19": run_c19}
+def run_c14_keepalive(rnd, tier, v, stats):
+    """C14 on a reused connection: consecutive requests through ONE Requestant must each be recovered exactly"""
+    from hio.core.http import clienting, serving
+    N = 100 if tier == "quick" else 1500
+    for it in range(N):
+        msg = bytearray()
+        rt = serving.Requestant(msg=msg, remoter=FakeRemoter())
+        seq = []
+        for k in range(rnd.randint(2, 4)):
+            method = rnd.choice(["GET", "POST", "PUT"])
+            hdrs = {}
+            for _ in range(rnd.randint(0, 2)):
+                hdrs[rnd.choice(["X-One", "X-Two", "Accept", "Content-Type"])] = rnd.choice(["v%d" % k, "text/plain", "w"])
+            body = None if method == "GET" else bytes(rnd.randrange(97, 123) for _ in range(rnd.choice([0, 3, 12])))
+            seq.append(dict(method=method, path="/k%d" % k, headers=hdrs, body=body))
+        inp = dict(sequence=[(q["method"], q["path"], q["headers"], q["body"].decode() if q["body"] else None) for q in seq])
+        stats["distinct"].add(repr(inp))
+        for k, q in enumerate(seq):
+            rq = clienting.Requester(hostname="example.com", port=8080, method=q["method"], path=q["path"], headers=dict(q["headers"]), body=q["body"])
+            msg.extend(rq.build())
+            if k > 0:
+                rt.makeParser()
+            try:
+                for _ in range(4):
+                    if rt.parser:
+                        rt.parse()
+            except Exception as ex:   # noqa
+                v("C14/keepalive-parse-raised", dict(inp, index=k), repr(ex)[:100])
+                break
+            stats["evals"] += 1
+            if not rt.ended or rt.errored:
+                v("C14/keepalive-request-not-accepted", dict(inp, index=k), dict(ended=rt.ended, error=rt.error))
+                break
+            sent = {kk.lower(): vv for kk, vv in q["headers"].items()}
+            got = {kk.lower(): vv for kk, vv in rt.headers.items() if kk.lower() not in ("host", "accept-encoding", "content-length")}
+            if rt.method != q["method"] or rt.path != q["path"] or bytes(rt.body) != (q["body"] or b"") or got != sent:
+                v("C14/keepalive-request-not-recovered", dict(inp, index=k), dict(method=rt.method, path=rt.path, headers=got, body=bytes(rt.body)),
+                  dict(method=q["method"], path=q["path"], headers=sent, body=q["body"] or b""))
+                break
+
+
+def run_c14_all(rnd, tier, v, stats):
+    run_c14(rnd, tier, v, stats)
+    run_c14_keepalive(rnd, tier, v, stats)
+
+
+RUNNERS = {"C12": run_c12, "C13": run_c13, "C14": run_c14_all, "C15": run_c15, "C16": run_c16, "C17": run_c17, "C18": run_c18, "C19": run_c19}
